@@ -2750,6 +2750,58 @@ def _selector_value(v, fn_stored):
     return d is not None and d.split(".")[0] not in fn_stored and d.split(".")[0] not in ("self", "cls")
 
 
+def _leaves(body):
+    """The innermost statement lists in which control reaches the end of `body` (through trailing if / elif / else chains with an else)."""
+    if not _falls_through(body):
+        return []
+    if body and isinstance(body[-1], ast.If):
+        branches, has_else = _chain_branches(body[-1])
+        if has_else:
+            out = []
+            for _t, b in branches:
+                out += _leaves(b)
+            return out
+    return [body]
+
+
+def _last_assign(leaf, v):
+    xs = [s_ for s_ in leaf if isinstance(s_, ast.Assign) and len(s_.targets) == 1 and isinstance(s_.targets[0], ast.Name) and s_.targets[0].id == v]
+    return xs[-1] if xs else None
+
+
+def _is_none_test(test, v):
+    return isinstance(test, ast.Compare) and len(test.ops) == 1 and isinstance(test.ops[0], (ast.Is, ast.IsNot)) and isinstance(test.left, ast.Name) and \
+        test.left.id == v and isinstance(test.comparators[0], ast.Constant) and test.comparators[0].value is None
+
+
+def _simple_display(v, fn_stored_later):
+    return isinstance(v, (ast.Tuple, ast.List)) and all(isinstance(e, ast.Constant) or (isinstance(e, ast.Name) and e.id not in fn_stored_later) for e in v.elts)
+
+
+class _FoldNoneTests(ast.NodeTransformer):
+    """`None is None`, `(a, b) is None` ... and the ifs they decide."""
+
+    def visit_If(self, node):
+        self.generic_visit(node)
+        t = node.test
+        if isinstance(t, ast.Compare) and len(t.ops) == 1 and isinstance(t.ops[0], (ast.Is, ast.IsNot)) and isinstance(t.comparators[0], ast.Constant) and \
+                t.comparators[0].value is None:
+            val = None
+            if isinstance(t.left, ast.Constant):
+                val = t.left.value is None
+            elif isinstance(t.left, (ast.Tuple, ast.List, ast.Dict, ast.Set)):
+                val = False
+            if val is not None:
+                if isinstance(t.ops[0], ast.IsNot):
+                    val = not val
+                return (node.body if val else node.orelse) or [ast.copy_location(ast.Pass(), node)]
+        return node
+
+    def visit_FunctionDef(self, node):
+        return node
+    visit_AsyncFunctionDef = visit_Lambda = visit_FunctionDef
+
+
 def _tail_duplicate_block(block, fnode, fn_stored):
     n = 0
     for i, st in enumerate(block):
@@ -2758,42 +2810,68 @@ def _tail_duplicate_block(block, fnode, fn_stored):
         branches, has_else = _chain_branches(st)
         if not has_else or len(branches) < 2:
             continue
-        live = [b for _t, b in branches if _falls_through(b)]
+        live = []
+        for _t, b in branches:
+            live += _leaves(b)
         if len(live) < 2:
             continue
-        # names every falling-through branch assigns at its top level, at least twice to a constant, with two different values
+        tail = block[i + 1:]
+        # names every leaf assigns at its top level ...
         cands = None
         for b in live:
             names = {s_.targets[0].id for s_ in b if isinstance(s_, ast.Assign) and len(s_.targets) == 1 and isinstance(s_.targets[0], ast.Name)}
             cands = names if cands is None else cands & names
         sel = set()
         for v in sorted(cands or ()):
-            vals = set()
+            vals, noneness = set(), set()
             for b in live:
-                last = [s_ for s_ in b if isinstance(s_, ast.Assign) and len(s_.targets) == 1 and isinstance(s_.targets[0], ast.Name) and s_.targets[0].id == v][-1]
+                last = _last_assign(b, v)
                 if _selector_value(last.value, fn_stored):
                     vals.add(unparse(last.value))
+                if isinstance(last.value, ast.Constant) and last.value.value is None:
+                    noneness.add("none")
+                elif isinstance(last.value, (ast.Tuple, ast.List, ast.Dict)):
+                    noneness.add("object")
+                else:
+                    noneness.add("?")
+            # ... to at least two different constants, or to None here and to a display there while the tail starts by asking which
             if len(vals) >= 2:
                 sel.add(v)
-        tail = block[i + 1:]
+            elif noneness == {"none", "object"} and isinstance(tail[0], ast.If) and _is_none_test(tail[0].test, v):
+                sel.add(v)
         if not sel or len(tail) > 30 or any(isinstance(x, _FUNC + (ast.ClassDef,)) for t in tail for x in ast.walk(t)):
             continue
         if not any(isinstance(x, ast.Name) and x.id in sel and isinstance(x.ctx, ast.Load) for t in tail for x in ast.walk(t)):
             continue
         for b in live:
             b.extend(clone(t) for t in tail)
-            # the selected constants are put where they are used
+            # the selected values are put where they are used
             for v in sorted(sel):
                 idxs = [k for k, s_ in enumerate(b) if isinstance(s_, ast.Assign) and len(s_.targets) == 1 and isinstance(s_.targets[0], ast.Name) and s_.targets[0].id == v]
-                if len(idxs) != 1 or not _selector_value(b[idxs[0]].value, fn_stored):
+                if len(idxs) != 1:
                     continue
                 k = idxs[0]
-                if any(isinstance(x, ast.Name) and x.id == v and isinstance(x.ctx, (ast.Store, ast.Del)) for t in b[k + 1:] for x in ast.walk(t)):
+                later_stored = {x.id for t in b[k + 1:] for x in ast.walk(t) if isinstance(x, ast.Name) and isinstance(x.ctx, (ast.Store, ast.Del))}
+                if v in later_stored:
                     continue
                 val = b[k].value
+                if not (_selector_value(val, fn_stored) or _simple_display(val, later_stored)):
+                    continue
                 sub = _SubstName({v: val})
                 b[k + 1:] = [sub.visit(t) for t in b[k + 1:]]
                 del b[k]
+            folded = []
+            for t in b:
+                r = _FoldNoneTests().visit(t)
+                folded.extend(r if isinstance(r, list) else [r])
+            # nothing runs after a return / raise; a pass among other statements says nothing
+            for k_, t in enumerate(folded):
+                if isinstance(t, (ast.Return, ast.Raise, ast.Continue, ast.Break)):
+                    folded = folded[:k_ + 1]
+                    break
+            if len(folded) > 1:
+                folded = [t for t in folded if not isinstance(t, ast.Pass)] or folded[:1]
+            b[:] = folded or [ast.Pass()]
         del block[i + 1:]
         n += 1
         break
